@@ -218,7 +218,7 @@ theorem restart_scan {s : St} {db : DB} {g : GDir} (cfg' : Cfg) (hdb : s.db = so
     (hplan : plan s.world db.dir = none) (hcfg : cfg'.Valid) :
     (close s).2 = .ok ∧ ∃ s' db', openDB (close s).1 db.dir cfg' = (s', .ok) ∧ s'.db = some db' ∧ db'.dir = db.dir ∧
       (∀ k, absGet s' db' k = absGet s db k) ∧ Inv s' db' g ∧
-      s'.world.get (mergeDirName db.dir) = s.world.get (mergeDirName db.dir) := by
+      s'.world.get (mergeDirName db.dir) = s.world.get (mergeDirName db.dir) ∧ db'.activeId = db.activeId := by
   obtain ⟨d, hd, hlock, hm⟩ := hinv.dir
   have hclose := close_eq s db d hdb hd
   have hms : Matches (syncAll d.data) g := Matches_syncAll hm
@@ -242,7 +242,7 @@ theorem restart_scan {s : St} {db : DB} {g : GDir} (cfg' : Cfg) (hdb : s.db = so
       exact getFile_syncAll d.data id
   · exact Inv_scanDB _ db.dir cfg' _ g db.activeId (MergeP.get_set_self _ _ _) rfl hms hinv.asc hinv.recs
       hinv.active _ rfl
-  · exact MergeP.get_set_ne _ _ _ _ (mname_ne _)
+  · exact ⟨MergeP.get_set_ne _ _ _ _ (mname_ne _), rfl⟩
 
 /-- a finished merge (`MergeOutB`): the adopting restart (`C06_adopt` for `MergeOutB`) -/
 theorem restart_adopt {s : St} {db : DB} {g : GDir} {n : Nat} {gm vis : GDir} (cfg' : Cfg)
@@ -251,7 +251,7 @@ theorem restart_adopt {s : St} {db : DB} {g : GDir} {n : Nat} {gm vis : GDir} (c
     (close s).2 = .ok ∧ ∃ s' db', openDB (close s).1 db.dir cfg' = (s', .ok) ∧ s'.db = some db' ∧ db'.dir = db.dir ∧
       (∀ k, absGet s' db' k = absGet s db k) ∧ Inv s' db' (gm ++ hi g n) ∧
       s'.world.get (mergeDirName db.dir) = none ∧
-      (NoPend (logOf g) → NoPend (logOf (gm ++ hi g n))) := by
+      (NoPend (logOf g) → NoPend (logOf (gm ++ hi g n))) ∧ db'.activeId = db.activeId := by
   obtain ⟨d, hd, hlock, hm⟩ := hinv.dir
   have hclose := close_eq s db d hdb hd
   have hne := mname_ne db.dir
@@ -265,7 +265,7 @@ theorem restart_adopt {s : St} {db : DB} {g : GDir} {n : Nat} {gm vis : GDir} (c
     { d with data := syncAll d.data, locked := false } g n db.activeId gm vis rfl hcfg
     (MergeP.get_set_self _ _ _) rfl (Matches_syncAll hm) hinv.asc hinv.recs hinv.active hmo' hF
   obtain ⟨hval, hpend⟩ := ValRel_mergedB hmo hinv.asc hinv.recs
-  refine ⟨_, _, hopen, rfl, rfl, ?_, hinv', hWm, fun hnp id => by rw [← hpend id]; exact hnp id⟩
+  refine ⟨_, _, hopen, rfl, rfl, ?_, hinv', hWm, fun hnp id => by rw [← hpend id]; exact hnp id, rfl⟩
   intro k
   exact absGet_of_ValRel hinv hinv' hval k
 
@@ -313,11 +313,11 @@ theorem restart0 {dir : String} {s : St} {m : BSpec} (h : HInv0 dir s m) (cfg' :
   obtain ⟨db, g, hs, hd, hi, habs, hms, hfr⟩ := h
   subst hd
   rcases hms with hnm | ⟨n, gm, vis, hmo⟩
-  · obtain ⟨hc, s', db', hopen, hs', hd', habs', hi', hw⟩ := restart_scan cfg' hs hi hnm.plan hcfg
+  · obtain ⟨hc, s', db', hopen, hs', hd', habs', hi', hw, _⟩ := restart_scan cfg' hs hi hnm.plan hcfg
     rw [hopen]
     exact ⟨hc, rfl, db', g, hs', hd', hi', fun k => by rw [habs' k, habs k], Or.inl (hnm.congr hw), hfr⟩
   · have hF := HintFits_of_sizes hmo hsz
-    obtain ⟨hc, s', db', hopen, hs', hd', habs', hi', hw, hnp⟩ := restart_adopt cfg' hs hi hmo hF hcfg
+    obtain ⟨hc, s', db', hopen, hs', hd', habs', hi', hw, hnp, _⟩ := restart_adopt cfg' hs hi hmo hF hcfg
     rw [hopen]
     exact ⟨hc, rfl, db', _, hs', hd', hi', fun k => by rw [habs' k, habs k],
       Or.inl (fun md hmd => by rw [hw] at hmd; cases hmd), hnp hfr⟩
